@@ -4,3 +4,6 @@ import LC.Props.C19
 #print axioms LC.V1Glue.exit_iff
 #print axioms LC.V1Glue.readLines_spec
 #print axioms LC.V1Glue.readLines_short
+#print axioms LC.Pool.defer_order_current
+#print axioms LC.Pool.no_send_after_close
+#print axioms LC.Pool.old_order_can_panic
